@@ -10,7 +10,8 @@
 
    Models only: no proofs in this file. *)
 From Coq Require Import ZArith List Bool.
-From Desper Require Import Lib.Alist Tree.C11Model.
+From Desper Require Import Lib.Alist.
+From Desper Require Export Tree.C11Model.
 Import ListNotations.
 Open Scope Z_scope.
 
